@@ -548,3 +548,87 @@ pub fn replay_mruns(out: &mut TraceOut, doc: &Value, r: &mut R) -> (u64, u64) {
     }
     (compared, drift)
 }
+
+/// longest run of the allocator's poison byte in `v`
+fn poison_run(v: &[u8]) -> usize {
+    let (mut best, mut cur) = (0usize, 0usize);
+    for &b in v {
+        if b == 0xDD {
+            cur += 1;
+            best = best.max(cur);
+        } else {
+            cur = 0;
+        }
+    }
+    best
+}
+
+/// C17: the merge function fails at its k-th call (every k in turn) and the caller keeps pulling
+/// from the same iterator. Nothing is specified about what comes out after the error, but every
+/// value handed to the merge function or yielded must still be live memory: the monitoring
+/// allocator fills freed memory with 0xDD, a byte no token contains (token bytes are < 0x20 apart
+/// from the five header bytes), so a run of eight of them was read through a dangling reference.
+pub fn scn_merge_resume(out: &mut TraceOut, r: &mut R, idx: u64, _heavy: bool) {
+    let nsrc = r.gen_range(2..=5usize);
+    let nkeys = r.gen_range(4..=14u32);
+    let mut files: Vec<std::rc::Rc<Vec<u8>>> = Vec::new();
+    for s in 0..nsrc {
+        let held: Vec<u32> = (0..nkeys).filter(|_| r.gen_bool(0.8)).collect();
+        let mut entries: Vec<Entry> = Vec::new();
+        for (p, k) in held.into_iter().enumerate() {
+            entries.push((k.to_be_bytes().to_vec(), token(s + 1, p + 1, *pick(r, &[40usize, 300, 700, 1500]))));
+        }
+        let cfg = Cfg { codec: *pick(r, &[0u8, 0, 5]), level: 0, block_size: 1024, interval: *pick(r, &[1usize, 8]), levels: (idx % 3) as u8 };
+        match write_file(&cfg, &entries).bytes {
+            Some(b) => files.push(std::rc::Rc::new(b)),
+            None => return,
+        }
+    }
+    let run = |fail_at: u64| -> (String, usize, usize, usize) {
+        crate::io::reset(crate::io::Sched::Whole, crate::io::Sched::Whole,
+            if fail_at == 0 { None } else { Some(crate::io::Fault { comp: "merge".into(), k: fail_at, kind: "merge".into() }) });
+        let rec = Recorder { mf: Mf::Concat, calls: RefCell::new(Vec::new()) };
+        let mut poisoned = 0usize;
+        let mut errors = 0usize;
+        let res = catch_unwind(AssertUnwindSafe(|| -> Result<(), String> {
+            let mut b = Merger::builder(&rec);
+            for f in &files {
+                b.push(Reader::new(crate::cursor::Src::new(f.clone())).and_then(Reader::into_cursor).map_err(|e| e.to_string())?);
+            }
+            let mut it = b.build().into_stream_merger_iter().map_err(|e| e.to_string())?;
+            for _ in 0..(nkeys as usize * 2 + 6) {
+                match it.next() {
+                    Ok(Some((k, v))) => {
+                        if poison_run(k) >= 4 || poison_run(v) >= 8 {
+                            poisoned += 1;
+                        }
+                    }
+                    Ok(None) => break,
+                    Err(_) => {
+                        errors += 1;
+                        if errors >= 3 {
+                            break;
+                        }
+                    }
+                }
+            }
+            Ok(())
+        }));
+        let calls = rec.calls.borrow();
+        for (_, vals) in calls.iter() {
+            poisoned += vals.iter().filter(|v| poison_run(v) >= 8).count();
+        }
+        let res = match res {
+            Ok(Ok(())) => "ok".to_string(),
+            Ok(Err(e)) => format!("err: {}", e),
+            Err(e) => format!("panic: {}", crate::util::panic_msg(e)),
+        };
+        (res, calls.len(), errors, poisoned)
+    };
+    let (_, total, _, _) = run(0);
+    for fail_at in 1..=(total as u64).min(16) {
+        let (res, calls, errors, poisoned) = run(fail_at);
+        out.ev(json!({"ev": "Resume", "fail_at": fail_at, "calls": calls, "errors": errors, "poisoned": poisoned, "res": res}));
+    }
+    crate::io::reset(crate::io::Sched::Whole, crate::io::Sched::Whole, None);
+}
